@@ -122,12 +122,22 @@ theorem maybeSendAppend_pw {a r r' : Raft} {to : Nat} {pr pr' : Progress} {ae b 
     · rw [h0.nb] at hb; cases hb
     · have hpw : PW a r' := by
         rw [he]
-        refine h0.push _ (fun _ => ?_) (fun hc => by cases hc)
-        rcases hp with c | c
-        · exact .inl c
-        · right
-          show pr.nextIdx - 1 ≤ r.raftLog.lastIndex
-          have := c.2.1; omega
+        refine h0.push _ (fun _ => ?_) (fun hc => by cases hc) (fun _ => ?_)
+        · rcases hp with c | c
+          · exact .inl c
+          · right
+            show pr.nextIdx - 1 ≤ r.raftLog.lastIndex
+            have := c.2.1; omega
+        · -- the entries were read from the log: `next_idx` is not below the first index
+          rcases hp with c | c
+          · exact .inl c
+          · right
+            show r.raftLog.firstIndex ≤ pr.nextIdx - 1 + 1
+            have hcl := h0.inv.committed_le_last
+            have hd := h0.inv.dummy_le_committed
+            by_cases hlt : pr.nextIdx ≤ r.raftLog.lastIndex ∧ pr.nextIdx < r.raftLog.firstIndex
+            · rw [entries_compacted _ _ _ _ hlt.1 hlt.2] at hes; cases hes
+            · have := c.2.1; omega
       refine ⟨hpw, ?_⟩
       rcases hp with c | c
       · left; rw [he]; exact c.append_left _
